@@ -154,6 +154,43 @@ func reval304Entity(env *e2elib.Env, tlsOn bool, backend, transport string, fail
 	}
 }
 
+// abortedTransfer: the origin announces a length and drops the connection part-way on its FIRST transfer only. No
+// client may be handed the truncated prefix as a complete answer, now or later from the store.
+func abortedTransfer(env *e2elib.Env, tlsOn bool, backend, transport string, fail func(failure)) {
+	body := mkBody(97, 1, 1000)
+	env.Origin.SetHandler(func(req e2elib.OriginRequest, n int) e2elib.Answer {
+		a := e2elib.NewAnswer(200, body, "Cache-Control: max-age=60", `ETag: "r97v1"`, "Content-Type: application/x-r97v1")
+		if n == 1 {
+			a.AbortAfter = 400
+		}
+		return a
+	})
+	env.Origin.ResetLog()
+	for i := 1; i <= 3; i++ {
+		var r *e2elib.Response
+		var err error
+		if tlsOn {
+			c, _, derr := env.DialTunnel(env.Origin.Addr, "127.0.0.1", 8*time.Second)
+			if derr != nil {
+				return
+			}
+			c.Send(env.TunnelRequest("GET", "/aborted", nil, nil), 5*time.Second)
+			r, err = c.Read("GET", 10*time.Second)
+			c.Close()
+		} else {
+			r, err = env.DoPlain(env.PlainRequest("GET", "/aborted", nil, nil), "GET", 10*time.Second)
+		}
+		if err != nil {
+			continue // an error or a dropped connection is C09's business, not a wrong pairing
+		}
+		if r.Status == 200 && (r.BodyErr != "" || string(r.Body) != string(body)) {
+			fail(failure{"truncated-transfer-served", backend, transport, fmt.Sprintf("request %d: a 200 answer delivers %d of the origin's 1000 bytes (read error %q) after the origin's first transfer was cut at 400 bytes", i, len(r.Body), r.BodyErr),
+				map[string]any{"request_no": i, "content_length": r.Header.Get("Content-Length"), "x_cache": r.Header.Get("X-Cache"), "body_bytes": len(r.Body)}})
+			return
+		}
+	}
+}
+
 func main() {
 	flag.Parse()
 	e2elib.Quiet()
@@ -217,6 +254,7 @@ func main() {
 			}
 			lateStore(env, tlsOn, backend, transport, fail)
 			reval304Entity(env, tlsOn, backend, transport, fail)
+			abortedTransfer(env, tlsOn, backend, transport, fail)
 			env.Origin.SetHandler(mainHandler)
 			stop := time.Now().Add(dur)
 			var wg sync.WaitGroup
